@@ -1,5 +1,8 @@
 import Xp.Model.C04
 import Xp.Model.C04Conn
+import Xp.Model.C04Compose
+import Xp.Proofs.C04
+import Xp.Gen.C04Skel
 /-
 C04 — every pipeline step sees exactly the state the function contract promises.
 Theorems about the reference interpreter (Xp/Model/C04.lean), for ALL functions
@@ -175,11 +178,6 @@ theorem threading (cluster : List ClusterObj) (observed : List Res) (s : Step) (
   conv => lhs; unfold runPipeline
   simp only [hc, Bool.false_eq_true, if_false, hr, hnf]
 
-/-- the trace of a pipeline result -/
-def traceOf : PipeResult → List (Nat × Request)
-  | .done s => s.trace
-  | .failed s _ => s.trace
-
 /-- Every request any function receives during a pipeline run carries the same observed
 state. -/
 theorem observed_same_for_all (cluster : List ClusterObj) (observed : List Res) (ss : List Step) (i : Nat) (st : PipeState)
@@ -237,6 +235,637 @@ theorem events_in_order (step : String) (rs : List Result) :
         rcases List.mem_cons.mp hx with rfl | hx
         · exact absurd hf h
         · exact ⟨x, hx, hf⟩
+
+
+/-! ### step k's request, exactly (every pipeline length, every k) -/
+
+/-- **Step k's request, exactly.** For every pipeline `pre ++ s :: post` — every length, every
+position `k = pre.length` — whose steps before `s` completed leaving the state `st`, and `s`'s
+credentials being available: the trace of the run is the requests of the earlier steps (all with
+an index `< k`), then `(k, stepRequest observed st s)`: the request that carries the SAME observed
+state as every other step, the desired state / XR readiness / context of `st`, no extra
+resources, and `s`'s own input and credentials; whatever follows carries an index `≥ k`. And `st`
+is the initial (empty) state when `k = 0`, otherwise its desired state, XR readiness and context
+are exactly those of the response the runner returned for step `k-1` (which carried no fatal
+result) when it was started from the state its own predecessors left. -/
+theorem step_request_exact (cluster : List ClusterObj) (observed : List Res)
+    (pre : List Step) (s : Step) (post : List Step) (st : PipeState)
+    (hpre : runPipeline cluster observed pre 0 initState = .done st)
+    (hc : s.creds.any (·.2.isNone) = false) :
+    (∃ tail, traceOf (runPipeline cluster observed (pre ++ s :: post) 0 initState) =
+        st.trace ++ (pre.length, stepRequest observed st s) :: tail ∧ ∀ p ∈ tail, pre.length ≤ p.1) ∧
+    (∀ p ∈ st.trace, p.1 < pre.length) ∧
+    (pre = [] → st = initState) ∧
+    (∀ pre' s', pre = pre' ++ [s'] → ∃ st' rsp,
+        runPipeline cluster observed pre' 0 initState = .done st' ∧
+        (runFetching cluster s'.fn (Xp.Gen.maxRequirementsIterations + 1) (stepRequest observed st' s') []).2 = .ok rsp ∧
+        hasFatal rsp.results = false ∧
+        st.desired = rsp.desired ∧ st.xrReady = rsp.xrReady ∧ st.ctx = rsp.ctx ∧
+        st.conds = st'.conds ++ rsp.conds ∧ st.events = st'.events ++ (eventsUntilFatal s'.name rsp.results).1) := by
+  refine ⟨?_, ?_, ?_, ?_⟩
+  · rw [runPipeline_append_eq, hpre]
+    simpa using cons_first_request cluster observed s post (0 + pre.length) st hc
+  · obtain ⟨t, ht, hti⟩ := done_trace_bounds cluster observed pre 0 initState st hpre
+    intro p hp
+    rw [ht] at hp
+    simp only [initState, List.nil_append] at hp
+    have := (hti p hp).2
+    omega
+  · rintro rfl
+    rw [runPipeline_nil] at hpre; cases hpre; rfl
+  · rintro pre' s' rfl
+    rw [runPipeline_append_eq] at hpre
+    cases h1 : runPipeline cluster observed pre' 0 initState with
+    | failed a b => rw [h1] at hpre; cases hpre
+    | done st' =>
+      rw [h1] at hpre
+      obtain ⟨_, rsp, hr, hf, hst⟩ := single_done cluster observed s' _ st' st hpre
+      exact ⟨st', rsp, rfl, hr, hf, by rw [hst]; rfl, by rw [hst]; rfl, by rw [hst]; rfl, by rw [hst]; rfl, by rw [hst]; rfl⟩
+
+/-- hypotheses satisfiable: a two-step pipeline whose first step adds a resource and sets a context key -/
+example : ∃ st, runPipeline [] [] [⟨"s0", fun _ => some ⟨[⟨"a", "KA", "", 1, true⟩], none, [("k", "v")], [], [], []⟩, "", []⟩] 0 initState = .done st ∧
+    st.desired = [⟨"a", "KA", "", 1, true⟩] ∧ st.ctx = [("k", "v")] := ⟨_, rfl, rfl, rfl⟩
+
+/-- **The final desired state is the last step's output**: a pipeline `pre ++ [s]` that completes
+ends with exactly the desired state, XR readiness and context of the response the runner
+returned for `s`. -/
+theorem final_desired_is_last_output (cluster : List ClusterObj) (observed : List Res)
+    (pre : List Step) (s : Step) (st : PipeState)
+    (h : runPipeline cluster observed (pre ++ [s]) 0 initState = .done st) :
+    ∃ st' rsp, runPipeline cluster observed pre 0 initState = .done st' ∧
+      (runFetching cluster s.fn (Xp.Gen.maxRequirementsIterations + 1) (stepRequest observed st' s) []).2 = .ok rsp ∧
+      st.desired = rsp.desired ∧ st.xrReady = rsp.xrReady ∧ st.ctx = rsp.ctx := by
+  rw [runPipeline_append_eq] at h
+  cases h1 : runPipeline cluster observed pre 0 initState with
+  | failed a b => rw [h1] at h; cases h
+  | done st' =>
+    rw [h1] at h
+    obtain ⟨_, rsp, hr, _, hst⟩ := single_done cluster observed s _ st' st h
+    exact ⟨st', rsp, rfl, hr, by rw [hst]; rfl, by rw [hst]; rfl, by rw [hst]; rfl⟩
+
+example : ∃ st, runPipeline [] [] ([] ++ [⟨"s0", fun _ => some ⟨[⟨"a", "KA", "", 1, true⟩], some true, [], [], [], []⟩, "", []⟩]) 0 initState = .done st :=
+  ⟨_, rfl⟩
+
+/-! ### the request as Compose builds it (Xp/Model/C04Compose.lean) -/
+
+/-- **The full request of step k.** The step the pipeline loop runs for a `PipelineStep` whose
+preparation succeeded (input decoded to `i`, credentials loaded to `cd`) starts, from the
+accumulated state `st`, with a request whose full form is exactly `buildRequest o st i cd`: the
+observed state `o` built once by AsState (XR, its connection details, every observed composed
+resource with its connection details), `st`'s desired state / XR readiness / context, the step's
+own input and its own credentials' data, no extra resources and no meta. -/
+theorem compose_first_request (s : SecretStore) (o : ObservedState) (xs : XStep) (st : PipeState)
+    (i : Bool × String) (cd : List (String × KV)) (hp : prepare s xs = some (i, cd)) :
+    (toStep s o xs).creds.any (·.2.isNone) = false ∧
+    embed o i cd (stepRequest (o.resources.map (·.res)) st (toStep s o xs)) = buildRequest o st i cd ∧
+    ∀ q, (toStep s o xs).fn q = xs.fn (embed o i cd q) := by
+  unfold toStep
+  simp only [hp]
+  refine ⟨?_, ?_, ?_⟩
+  · simp [List.any_map]
+  · simp [buildRequest, stepRequest, embed, keysOf, List.map_map, Function.comp_def]
+  · intro q; trivial
+
+example : prepare ⟨[("sec", [("u", "v")])], []⟩ ⟨"s0", fun _ => none, some (some "in"), [⟨"c", true, some "sec"⟩]⟩ =
+    some ((true, "in"), [("c", [("u", "v")])]) := by decide
+
+/-- **A step whose preparation fails is never called**: when the input does not decode or a
+credentials Get fails, the pipeline stops at that step with the trace unchanged (no request is
+sent to it or to any later step) and nothing is surfaced. -/
+theorem prepare_failure_stops (s : SecretStore) (o : ObservedState) (xs : XStep) (ss : List Step) (k : Nat) (st : PipeState)
+    (cluster : List ClusterObj) (hp : prepare s xs = none) :
+    runPipeline cluster (o.resources.map (·.res)) (toStep s o xs :: ss) k st = .failed st false := by
+  unfold toStep
+  simp only [hp]
+  unfold runPipeline
+  simp
+
+example : prepare ⟨[], []⟩ ⟨"s0", fun _ => none, none, [⟨"c", true, some "missing"⟩]⟩ = none := by decide
+example : prepare ⟨[("sec", [])], []⟩ ⟨"s0", fun _ => none, some none, []⟩ = none := by decide
+
+/-- **Credentials, error handling.** The credentials loop succeeds iff the Get of every
+secret-sourced credential with a secret reference finds its Secret — NotFound fails the step
+just like any other error; credentials of another source, or without a reference, are skipped. -/
+theorem loadCreds_ok_iff (s : SecretStore) (cs : List Cred) (acc : List (String × KV)) :
+    (loadCreds s acc cs).isSome ↔
+      ∀ c ∈ cs, c.isSecret = true → ∀ ref, c.secretRef = some ref → ∃ d, s.get ref = .found d := by
+  induction cs generalizing acc with
+  | nil => simp [loadCreds]
+  | cons c cs ih =>
+    unfold loadCreds
+    by_cases hs : c.isSecret = true
+    · cases hr : c.secretRef with
+      | none =>
+        simp only [hs, Bool.not_true, Bool.false_eq_true, if_false, ih, List.mem_cons, forall_eq_or_imp, hr]
+        simp
+      | some ref =>
+        cases hg : s.get ref with
+        | found d =>
+          simp only [hs, Bool.not_true, Bool.false_eq_true, if_false, hg, ih, List.mem_cons, forall_eq_or_imp, hr]
+          simp [hg]
+        | notFound =>
+          simp only [hs, Bool.not_true, Bool.false_eq_true, if_false, hg, List.mem_cons, forall_eq_or_imp, hr]
+          simp [hg]
+        | error =>
+          simp only [hs, Bool.not_true, Bool.false_eq_true, if_false, hg, List.mem_cons, forall_eq_or_imp, hr]
+          simp [hg]
+    · simp only [hs, Bool.not_false, if_true, ih, List.mem_cons, forall_eq_or_imp]
+      simp
+
+theorem mem_upsert {β : Type} (l : List (String × β)) (k : String) (v : β) (p : String × β) (h : p ∈ upsert l k v) :
+    p ∈ l ∨ p = (k, v) := by
+  unfold upsert at h
+  split at h
+  · obtain ⟨q, hq, rfl⟩ := List.mem_map.mp h
+    by_cases hk : (q.1 == k) = true
+    · simp [hk]
+    · simp [hk, hq]
+  · rcases List.mem_append.mp h with h | h
+    · exact Or.inl h
+    · exact Or.inr (by simpa using h)
+
+/-- **Own credentials only.** Every entry of the credentials a step is sent is the data of a
+Secret one of the step's OWN secret-sourced credential entries names, under that entry's name. -/
+theorem loadCreds_sound (s : SecretStore) (cs : List Cred) (acc out : List (String × KV))
+    (h : loadCreds s acc cs = some out) :
+    ∀ p ∈ out, p ∈ acc ∨ ∃ c ∈ cs, c.name = p.1 ∧ c.isSecret = true ∧ ∃ ref, c.secretRef = some ref ∧ s.get ref = .found p.2 := by
+  induction cs generalizing acc with
+  | nil => simp [loadCreds] at h; subst h; intro p hp; exact Or.inl hp
+  | cons c cs ih =>
+    unfold loadCreds at h
+    have lift : ∀ p : String × KV, (∃ c' ∈ cs, c'.name = p.1 ∧ c'.isSecret = true ∧ ∃ ref, c'.secretRef = some ref ∧ s.get ref = .found p.2) →
+        ∃ c' ∈ c :: cs, c'.name = p.1 ∧ c'.isSecret = true ∧ ∃ ref, c'.secretRef = some ref ∧ s.get ref = .found p.2 := by
+      rintro p ⟨c', hc', rest⟩; exact ⟨c', List.mem_cons_of_mem _ hc', rest⟩
+    by_cases hs : c.isSecret = true
+    · simp only [hs, Bool.not_true, Bool.false_eq_true, if_false] at h
+      cases hr : c.secretRef with
+      | none =>
+        rw [hr] at h
+        intro p hp
+        rcases ih acc h p hp with h1 | h1
+        · exact Or.inl h1
+        · exact Or.inr (lift p h1)
+      | some ref =>
+        rw [hr] at h
+        cases hg : s.get ref with
+        | found d =>
+          simp only [hg] at h
+          intro p hp
+          rcases ih _ h p hp with h1 | h1
+          · rcases mem_upsert acc c.name d p h1 with h2 | h2
+            · exact Or.inl h2
+            · subst h2
+              exact Or.inr ⟨c, List.mem_cons_self .., rfl, hs, ref, hr, hg⟩
+          · exact Or.inr (lift p h1)
+        | notFound => simp only [hg] at h; cases h
+        | error => simp only [hg] at h; cases h
+    · simp only [hs, Bool.not_false, if_true] at h
+      intro p hp
+      rcases ih acc h p hp with h1 | h1
+      · exact Or.inl h1
+      · exact Or.inr (lift p h1)
+
+example : loadCreds ⟨[("sec", [("u", "v")])], []⟩ [] [⟨"c", true, some "sec"⟩, ⟨"d", false, some "sec"⟩] = some [("c", [("u", "v")])] := by decide
+
+theorem beq_false_of_ne' {a b : String} (h : ¬a = b) : (a == b) = false := by simpa using h
+
+theorem lookup_cons_ne {β : Type} (n a1 : String) (a2 : β) (l : List (String × β)) (h : ¬n = a1) :
+    List.lookup n ((a1, a2) :: l) = List.lookup n l := by
+  simp [List.lookup, beq_false_of_ne' h]
+
+theorem lookup_cons_eq {β : Type} (n : String) (a2 : β) (l : List (String × β)) :
+    List.lookup n ((n, a2) :: l) = some a2 := by
+  simp [List.lookup]
+
+theorem lookup_map_upsert {β : Type} (l : List (String × β)) (k : String) (v : β) (n : String) :
+    (l.map (fun p => if p.1 == k then (k, v) else p)).lookup n =
+      if n = k then (if l.any (·.1 == k) then some v else none) else l.lookup n := by
+  induction l with
+  | nil => simp
+  | cons a l ih =>
+    obtain ⟨a1, a2⟩ := a
+    simp only [List.map_cons, List.any_cons]
+    by_cases hak : a1 = k
+    · subst hak
+      simp only [BEq.rfl, if_true, Bool.true_or]
+      by_cases hn : n = a1
+      · subst hn; simp only [lookup_cons_eq, if_true]
+      · rw [lookup_cons_ne _ _ _ _ hn, ih, lookup_cons_ne _ _ _ _ hn]; simp only [hn, if_false]
+    · simp only [beq_false_of_ne' hak, Bool.false_eq_true, if_false, Bool.false_or]
+      by_cases hna : n = a1
+      · subst hna
+        simp only [lookup_cons_eq, hak, if_false]
+      · rw [lookup_cons_ne _ _ _ _ hna, ih, lookup_cons_ne _ _ _ _ hna]
+
+theorem lookup_append_single {β : Type} (l : List (String × β)) (k : String) (v : β) (n : String) :
+    (l ++ [(k, v)]).lookup n = match l.lookup n with
+      | some x => some x
+      | none => if n = k then some v else none := by
+  induction l with
+  | nil =>
+    by_cases h : n = k
+    · subst h; simp only [List.nil_append, lookup_cons_eq, List.lookup, if_true]
+    · simp only [List.nil_append, lookup_cons_ne _ _ _ _ h, List.lookup, h, if_false]
+  | cons a l ih =>
+    obtain ⟨a1, a2⟩ := a
+    by_cases hna : n = a1
+    · subst hna; simp only [List.cons_append, lookup_cons_eq]
+    · simp only [List.cons_append, lookup_cons_ne _ _ _ _ hna, ih]
+
+theorem lookup_none_of_not_any {β : Type} (l : List (String × β)) (k : String) (h : l.any (·.1 == k) = false) :
+    l.lookup k = none := by
+  induction l with
+  | nil => rfl
+  | cons a l ih =>
+    obtain ⟨a1, a2⟩ := a
+    simp only [List.any_cons, Bool.or_eq_false_iff] at h
+    have hne : ¬k = a1 := by
+      intro e; subst e; simp at h
+    rw [lookup_cons_ne _ _ _ _ hne]; exact ih h.2
+
+/-- `upsert` is a map update -/
+theorem lookup_upsert {β : Type} (l : List (String × β)) (k : String) (v : β) (n : String) :
+    (upsert l k v).lookup n = if n = k then some v else l.lookup n := by
+  unfold upsert
+  by_cases ha : l.any (·.1 == k) = true
+  · simp only [ha, if_true, lookup_map_upsert]
+  · have ha' : l.any (·.1 == k) = false := (Bool.not_eq_true _).mp ha
+    simp only [ha', Bool.false_eq_true, if_false, lookup_append_single]
+    by_cases hn : n = k
+    · subst hn; simp [lookup_none_of_not_any l n ha']
+    · simp only [hn, if_false]; cases l.lookup n <;> rfl
+
+/-- **Credentials are a map keyed by name; a later entry of the same name replaces an earlier
+one.** When the credentials loop succeeds, the data sent under name `n` is that of the LAST of the
+step's own entries named `n` that is secret-sourced with a reference (its Secret's data), and
+there is no entry `n` when the step has none. -/
+theorem loadCreds_lookup (s : SecretStore) (cs : List Cred) (acc out : List (String × KV))
+    (h : loadCreds s acc cs = some out) (n : String) :
+    out.lookup n = match (cs.filterMap (credEntry s)).reverse.lookup n with
+      | some d => some d
+      | none => acc.lookup n := by
+  induction cs generalizing acc with
+  | nil => simp [loadCreds] at h; subst h; simp
+  | cons c cs ih =>
+    unfold loadCreds at h
+    by_cases hs : c.isSecret = true
+    · simp only [hs, Bool.not_true, Bool.false_eq_true, if_false] at h
+      cases hr : c.secretRef with
+      | none =>
+        rw [hr] at h
+        have he : credEntry s c = none := by simp [credEntry, hs, hr]
+        simpa [List.filterMap_cons, he] using ih acc h
+      | some ref =>
+        rw [hr] at h
+        cases hg : s.get ref with
+        | found d =>
+          simp only [hg] at h
+          have he : credEntry s c = some (c.name, d) := by simp [credEntry, hs, hr, hg]
+          rw [ih _ h]
+          simp only [List.filterMap_cons, he, List.reverse_cons, lookup_append_single, lookup_upsert]
+          cases (List.filterMap (credEntry s) cs).reverse.lookup n with
+          | some x => simp
+          | none => by_cases hn : n = c.name <;> simp [hn]
+        | notFound => simp only [hg] at h; cases h
+        | error => simp only [hg] at h; cases h
+    · simp only [hs, Bool.not_false, if_true] at h
+      have he : credEntry s c = none := by simp [credEntry, hs]
+      simpa [List.filterMap_cons, he] using ih acc h
+
+example : loadCreds ⟨[("sec1", [("u", "1")]), ("sec2", [("t", "2")])], []⟩ [] [⟨"c", true, some "sec1"⟩, ⟨"c", true, some "sec2"⟩] =
+    some [("c", [("t", "2")])] := by decide
+
+/-- **Connection details, error handling.** FetchConnection fails only when a referenced Secret's
+Get answers an error other than NotFound; no reference and NotFound both yield empty details. -/
+theorem fetchConnection_cases (s : SecretStore) (ref : Option String) :
+    (fetchConnection s ref = none ↔ ∃ n, ref = some n ∧ s.get n = .error) ∧
+    (ref = none → fetchConnection s ref = some []) ∧
+    (∀ n, ref = some n → s.get n = .notFound → fetchConnection s ref = some []) ∧
+    (∀ n d, ref = some n → s.get n = .found d → fetchConnection s ref = some d) := by
+  refine ⟨?_, ?_, ?_, ?_⟩
+  · cases ref with
+    | none => simp [fetchConnection]
+    | some n => cases hg : s.get n <;> simp [fetchConnection, hg]
+  · rintro rfl; rfl
+  · rintro n rfl hg; simp [fetchConnection, hg]
+  · rintro n d rfl hg; simp [fetchConnection, hg]
+
+example : fetchConnection ⟨[("sec", [("u", "v")])], ["bad"]⟩ (some "bad") = none ∧
+    fetchConnection ⟨[("sec", [("u", "v")])], ["bad"]⟩ (some "sec") = some [("u", "v")] := by decide
+
+/-- **Observed composed resources and their connection details.** Every resource the observer
+returns is a referenced object that is not controlled by someone else, under its
+composition-resource-name, with exactly the connection details FetchConnection yields for its
+own `writeConnectionSecretToRef`. -/
+theorem observe_sound (s : SecretStore) (refs : List (String × String)) (objs : List CObj) (out : List ORes)
+    (h : observeX s refs objs = some out) :
+    ∀ r ∈ out, ∃ o ∈ objs, (o.kind, o.name) ∈ refs ∧ o.annot = r.res.rname ∧ o.annot ≠ "" ∧ (o.ctrl == "other") = false ∧
+      r.res = ⟨o.annot, o.kind, o.name, o.content, false⟩ ∧ fetchConnection s o.connRef = some r.conn := by
+  suffices H : ∀ (rs : List (String × String)) (acc out : List ORes),
+      (∀ x ∈ rs, x ∈ refs) →
+      (∀ r ∈ acc, ∃ o ∈ objs, (o.kind, o.name) ∈ refs ∧ o.annot = r.res.rname ∧ o.annot ≠ "" ∧ (o.ctrl == "other") = false ∧
+        r.res = ⟨o.annot, o.kind, o.name, o.content, false⟩ ∧ fetchConnection s o.connRef = some r.conn) →
+      rs.foldlM (observeStep s objs) acc = some out →
+      ∀ r ∈ out, ∃ o ∈ objs, (o.kind, o.name) ∈ refs ∧ o.annot = r.res.rname ∧ o.annot ≠ "" ∧ (o.ctrl == "other") = false ∧
+        r.res = ⟨o.annot, o.kind, o.name, o.content, false⟩ ∧ fetchConnection s o.connRef = some r.conn from
+    H refs [] out (fun _ hx => hx) (by simp) h
+  intro rs
+  induction rs with
+  | nil => intro acc out _ hacc h; simp [List.foldlM] at h; subst h; exact hacc
+  | cons x rs ih =>
+    intro acc out hsub hacc h
+    simp only [List.foldlM_cons, Option.bind_eq_bind] at h
+    cases hstep : observeStep s objs acc x with
+    | none => rw [hstep] at h; simp at h
+    | some acc' =>
+      rw [hstep] at h
+      simp only [Option.bind_some] at h
+      refine ih acc' out (fun y hy => hsub y (List.mem_cons_of_mem _ hy)) ?_ h
+      unfold observeStep at hstep
+      split at hstep
+      · cases hstep; exact hacc
+      · split at hstep
+        · cases hstep; exact hacc
+        · rename_i o hfind
+          split at hstep
+          · cases hstep; exact hacc
+          · rename_i hctrl
+            split at hstep
+            · cases hstep
+            · rename_i hannot
+              split at hstep
+              · cases hstep
+              · rename_i c hconn
+                cases hstep
+                intro r hr
+                rcases List.mem_append.mp hr with hr | hr
+                · exact hacc r (List.mem_filter.mp hr).1
+                · simp only [List.mem_singleton] at hr
+                  subst hr
+                  have hm := List.mem_of_find?_eq_some hfind
+                  have hp := List.find?_some hfind
+                  simp only [Bool.and_eq_true, beq_iff_eq] at hp
+                  have hx : (o.kind, o.name) = x := by
+                    cases x; simp only [Prod.mk.injEq]; exact ⟨hp.1, hp.2⟩
+                  exact ⟨o, hm, hx ▸ hsub x (List.mem_cons_self ..), rfl, by simpa using hannot, by simpa using hctrl, rfl, hconn⟩
+
+example : observeX ⟨[("sec", [("u", "v")])], []⟩ [("KA", "a1")] [⟨"KA", "a1", "ra", "xr", 1, some "sec"⟩] =
+    some [⟨⟨"ra", "KA", "a1", 1, false⟩, [("u", "v")]⟩] := by decide
+
+theorem observeStep_keeps (s : SecretStore) (objs : List CObj) (acc acc' : List ORes) (x : String × String)
+    (h : observeStep s objs acc x = some acc') (n : String) (hn : hasName acc n) : hasName acc' n := by
+  unfold observeStep at h
+  split at h
+  · cases h; exact hn
+  · split at h
+    · cases h; exact hn
+    · rename_i o _
+      split at h
+      · cases h; exact hn
+      · split at h
+        · cases h
+        · split at h
+          · cases h
+          · rename_i c _
+            cases h
+            obtain ⟨r, hr, hrn⟩ := hn
+            by_cases he : r.res.rname = o.annot
+            · exact ⟨_, List.mem_append_right _ (List.mem_singleton.mpr rfl), by rw [← hrn, he]⟩
+            · exact ⟨r, List.mem_append_left _ (List.mem_filter.mpr ⟨hr, by simpa using he⟩), hrn⟩
+
+theorem observeStep_adds (s : SecretStore) (objs : List CObj) (acc acc' : List ORes) (x : String × String) (o : CObj)
+    (h : observeStep s objs acc x = some acc') (hx : (x.2 == "") = false)
+    (hfind : objs.find? (fun o => o.kind == x.1 && o.name == x.2) = some o) (hctrl : (o.ctrl == "other") = false) :
+    hasName acc' o.annot := by
+  unfold observeStep at h
+  simp only [hx, Bool.false_eq_true, if_false, hfind, hctrl] at h
+  split at h
+  · cases h
+  · split at h
+    · cases h
+    · cases h
+      exact ⟨_, List.mem_append_right _ (List.mem_singleton.mpr rfl), rfl⟩
+
+theorem observe_fold_keeps (s : SecretStore) (objs : List CObj) (rs : List (String × String)) (acc out : List ORes)
+    (h : rs.foldlM (observeStep s objs) acc = some out) (n : String) (hn : hasName acc n) : hasName out n := by
+  induction rs generalizing acc with
+  | nil => simp [List.foldlM] at h; subst h; exact hn
+  | cons x rs ih =>
+    simp only [List.foldlM_cons, Option.bind_eq_bind] at h
+    cases hstep : observeStep s objs acc x with
+    | none => rw [hstep] at h; simp at h
+    | some acc' =>
+      rw [hstep] at h
+      exact ih acc' h (observeStep_keeps s objs acc acc' x hstep n hn)
+
+/-- **Every existing composed resource of this XR is observed.** When the observer succeeds,
+every reference that names an object which exists and is not controlled by someone else is
+represented in the observed state under the object's composition-resource-name (with
+`observe_sound`: carrying its own connection details). -/
+theorem observe_complete (s : SecretStore) (refs : List (String × String)) (objs : List CObj) (out : List ORes)
+    (h : observeX s refs objs = some out) (x : String × String) (hx : x ∈ refs) (hname : (x.2 == "") = false)
+    (o : CObj) (hfind : objs.find? (fun o => o.kind == x.1 && o.name == x.2) = some o) (hctrl : (o.ctrl == "other") = false) :
+    ∃ r ∈ out, r.res.rname = o.annot := by
+  suffices H : ∀ (rs : List (String × String)) (acc : List ORes), x ∈ rs →
+      rs.foldlM (observeStep s objs) acc = some out → hasName out o.annot from H refs [] hx h
+  intro rs
+  induction rs with
+  | nil => intro _ hm; cases hm
+  | cons y rs ih =>
+    intro acc hm hf
+    simp only [List.foldlM_cons, Option.bind_eq_bind] at hf
+    cases hstep : observeStep s objs acc y with
+    | none => rw [hstep] at hf; simp at hf
+    | some acc' =>
+      rw [hstep] at hf
+      simp only [Option.bind_some] at hf
+      rcases List.mem_cons.mp hm with rfl | hm
+      · exact observe_fold_keeps s objs rs acc' out hf _ (observeStep_adds s objs acc acc' x o hstep hname hfind hctrl)
+      · exact ih acc' hm hf
+
+example : observeX ⟨[], []⟩ [("KA", "a1"), ("KB", "gone")] [⟨"KA", "a1", "ra", "xr", 1, none⟩] =
+    some [⟨⟨"ra", "KA", "a1", 1, false⟩, []⟩] := by decide
+
+/-- **The constant part of every request.** Every full request of the run carries the observed
+state AsState built once (the XR's name and connection details, the connection details of every
+observed composed resource), no meta, and the input flag and credentials data that the
+preparation of ITS OWN step produced. -/
+theorem xtrace_constant_part (s : SecretStore) (o : ObservedState) (steps : List XStep) (tr : List (Nat × Request))
+    (k : Nat) (xq : XRequest) (h : (k, xq) ∈ xtrace s o steps tr) :
+    xq.xrName = o.xrName ∧ xq.xrConn = o.xrConn ∧ xq.obsConn = o.resources.map (fun r => (r.res.rname, r.conn)) ∧ xq.metaTag = "" ∧
+    ∃ xs i cd q, steps[k]? = some xs ∧ prepare s xs = some (i, cd) ∧ (k, q) ∈ tr ∧ xq = embed o i cd q ∧
+      xq.credData = cd ∧ xq.hasInput = i.1 := by
+  unfold xtrace at h
+  obtain ⟨p, hp, hsome⟩ := List.mem_filterMap.mp h
+  cases hx : steps[p.1]? with
+  | none => simp [hx] at hsome
+  | some xs =>
+    cases hprep : prepare s xs with
+    | none => simp [hx, hprep] at hsome
+    | some icd =>
+      obtain ⟨i, cd⟩ := icd
+      simp only [hx, hprep, Option.some.injEq, Prod.mk.injEq] at hsome
+      obtain ⟨rfl, rfl⟩ := hsome
+      exact ⟨rfl, rfl, rfl, rfl, xs, i, cd, p.2, hx, hprep, hp, rfl, rfl, rfl⟩
+
+example : xtrace ⟨[], []⟩ ⟨"xr", [("a", "b")], []⟩ [⟨"s0", fun _ => none, none, []⟩] [(0, ⟨[], [], none, [], [], "", []⟩)] =
+    [(0, ⟨⟨[], [], none, [], [], "", []⟩, "xr", [("a", "b")], [], [], false, ""⟩)] := by decide
+
+theorem mem_xtrace_idx (s : SecretStore) (o : ObservedState) (steps : List XStep) (tr : List (Nat × Request))
+    (y : Nat × XRequest) (h : y ∈ xtrace s o steps tr) : ∃ x ∈ tr, x.1 = y.1 := by
+  unfold xtrace at h
+  obtain ⟨p, hp, hsome⟩ := List.mem_filterMap.mp h
+  refine ⟨p, hp, ?_⟩
+  cases hx : steps[p.1]? with
+  | none => simp [hx] at hsome
+  | some xs =>
+    cases hprep : prepare s xs with
+    | none => simp [hx, hprep] at hsome
+    | some icd => simp only [hx, hprep, Option.some.injEq] at hsome; rw [← hsome]
+
+/-- **Step k's full request, for every pipeline and every k.** In a Compose run over the
+pipeline `pre ++ xs :: post` (any length, position `k = pre.length`) in which the steps before
+`xs` completed leaving the state `st` (so, by `step_request_exact`, `st` holds exactly the
+desired state and context step `k-1` returned, or nothing when `k = 0`) and whose preparation of
+`xs` gave input `i` and credentials `cd`: the full requests the functions received are the
+requests of earlier steps (index `< k`), then `(k, buildRequest o st i cd)` — observed state `o`
+with the XR's and every observed resource's connection details, `st`'s desired state and
+context, `xs`'s own input and own credentials, no extra resources, no meta — then requests with
+an index `≥ k`. -/
+theorem compose_step_request_exact (w : XWorld) (pre : List XStep) (xs : XStep) (post : List XStep)
+    (o : ObservedState) (r : PipeResult) (st : PipeState) (i : Bool × String) (cd : List (String × KV))
+    (hrun : composeX w (pre ++ xs :: post) = .ran o r)
+    (hpre : runPipeline w.cluster (o.resources.map (·.res)) (pre.map (toStep w.secrets o)) 0 initState = .done st)
+    (hp : prepare w.secrets xs = some (i, cd)) :
+    ∃ head tail, xtrace w.secrets o (pre ++ xs :: post) (traceOf r) = head ++ (pre.length, buildRequest o st i cd) :: tail ∧
+      (∀ p ∈ head, p.1 < pre.length) ∧ (∀ p ∈ tail, pre.length ≤ p.1) := by
+  have hr : r = runPipeline w.cluster (o.resources.map (·.res)) ((pre ++ xs :: post).map (toStep w.secrets o)) 0 initState := by
+    unfold composeX at hrun
+    split at hrun
+    · cases hrun
+    · split at hrun
+      · cases hrun
+      · simp only [XResult.ran.injEq] at hrun
+        obtain ⟨ho, hr⟩ := hrun
+        subst ho; exact hr.symm
+  obtain ⟨hc, hemb, _⟩ := compose_first_request w.secrets o xs st i cd hp
+  rw [List.map_append, List.map_cons] at hr
+  obtain ⟨⟨tail, htr, htail⟩, hhead, _, _⟩ :=
+    step_request_exact w.cluster (o.resources.map (·.res)) (pre.map (toStep w.secrets o)) (toStep w.secrets o xs)
+      (post.map (toStep w.secrets o)) st hpre hc
+  rw [← hr] at htr
+  simp only [List.length_map] at htr htail hhead
+  refine ⟨xtrace w.secrets o (pre ++ xs :: post) st.trace, xtrace w.secrets o (pre ++ xs :: post) tail, ?_, ?_, ?_⟩
+  · rw [htr]
+    have hk : (pre ++ xs :: post)[pre.length]? = some xs := by simp
+    simp only [xtrace, List.filterMap_append, List.filterMap_cons, hk, hp, hemb]
+  · intro p hp'
+    obtain ⟨x, hx, hxe⟩ := mem_xtrace_idx _ _ _ _ p hp'
+    rw [← hxe]; exact hhead x hx
+  · intro p hp'
+    obtain ⟨x, hx, hxe⟩ := mem_xtrace_idx _ _ _ _ p hp'
+    rw [← hxe]; exact htail x hx
+
+example : ∃ o r, composeX ⟨"xr", some "sec", [], [], ⟨[("sec", [("u", "v")])], []⟩, []⟩
+    ([] ++ (⟨"s0", fun q => if q.xrConn = [("u", "v")] then some ⟨[], none, [], [], [], []⟩ else none, none, []⟩ : XStep) :: []) = .ran o r ∧
+    (traceOf r).length = 1 := ⟨_, _, rfl, by decide⟩
+
+/-! ### response handling -/
+
+/-- the status switch of Compose maps every status to True, False or Unknown, and only the two
+definite ones to themselves -/
+theorem convStatus_cases (st : String) :
+    (convStatus st = "True" ↔ st = "True") ∧ (convStatus st = "False" ↔ st = "False") ∧
+    (convStatus st = "True" ∨ convStatus st = "False" ∨ convStatus st = "Unknown") := by
+  unfold convStatus
+  by_cases h1 : st = "True"
+  · subst h1; decide
+  · by_cases h2 : st = "False"
+    · subst h2; decide
+    · simp [h1, h2]
+
+/-! ### regenerated facts: the modelled Go functions still have the modelled call skeleton -/
+
+/-- `FunctionComposer.Compose`: observed state built once before the loop; per step: input, the
+credentials loop with its secret Get, the call, threading of desired and context, conditions,
+results with the severity switch; nothing reads meta / ttl. -/
+theorem skeleton_compose : Xp.Gen.c04SkelCompose = skelCompose := by decide
+
+/-- `FetchingFunctionRunner.RunFunction` -/
+theorem skeleton_fetching : Xp.Gen.c04SkelFetching = skelFetching := by decide
+
+/-- `ExistingExtraResourcesFetcher.Fetch` -/
+theorem skeleton_fetch : Xp.Gen.c04SkelFetch = skelFetch := by decide
+
+/-- `ExistingComposedResourceObserver.ObserveComposedResources` -/
+theorem skeleton_observe : Xp.Gen.c04SkelObserve = skelObserve := by decide
+
+/-- `AsState` -/
+theorem skeleton_as_state : Xp.Gen.c04SkelAsState = skelAsState := by decide
+
+/-- `SecretConnectionDetailsFetcher.FetchConnection` -/
+theorem skeleton_fetch_connection : Xp.Gen.c04SkelFetchConnection = skelFetchConnection := by decide
+
+/-- `convertTarget`, tabulated on the real function for every target value of the proto enum -/
+theorem convert_target_table : ∀ p ∈ Xp.Gen.c04TargetTable, convertTarget p.1 = p.2 := by decide
+
+/-- `PackagedFunctionRunner.RunFunction` -/
+theorem skeleton_pkg_run : Xp.Gen.c04SkelPkgRun = Xp.C04Conn.skelPkgRun := by decide
+
+/-- `PackagedFunctionRunner.getClientConn` -/
+theorem skeleton_get_client_conn : Xp.Gen.c04SkelGetClientConn = Xp.C04Conn.skelGetClientConn := by decide
+
+/-- `PackagedFunctionRunner.GarbageCollectConnectionsNow` -/
+theorem skeleton_gc_conns : Xp.Gen.c04SkelGcConns = Xp.C04Conn.skelGcConns := by decide
+
+/-- `BetaFallBackFunctionRunnerServiceClient.RunFunction`, `toBeta`, `fromBeta` -/
+theorem skeleton_beta : Xp.Gen.c04SkelBeta = Xp.C04Conn.skelBeta ∧ Xp.Gen.c04SkelToBeta = Xp.C04Conn.skelReencode ∧
+    Xp.Gen.c04SkelFromBeta = Xp.C04Conn.skelReencode := by decide
+
+/-! ### results and conditions of the whole pipeline -/
+
+theorem eventsUntilFatal_no_fatal (step : String) (rs : List Result) (h : hasFatal rs = false) :
+    (eventsUntilFatal step rs).1 = rs.map (evOf step) := by
+  induction rs with
+  | nil => rfl
+  | cons r rs ih =>
+    have h1 : r.sev ≠ .fatal := by
+      intro hr; simp [hasFatal, hr] at h
+    have h2 : hasFatal rs = false := by
+      simp only [hasFatal, List.any_cons, Bool.or_eq_false_iff] at h ⊢; exact h.2
+    unfold eventsUntilFatal
+    simp [h1, ih h2]
+
+/-- **Results and conditions are surfaced in pipeline order and none is dropped**, for every
+pipeline: whatever way the run ends, the events and conditions of its final state are, in
+pipeline order, those of every accepted response (`accepted`: the responses the runner returned,
+step by step, up to and including the first one with a fatal result) — all conditions of each,
+and its results up to a fatal one. When the run completes, every step has exactly one accepted
+response, none carries a fatal result, and the events are ALL results of ALL steps, in order. -/
+theorem results_and_conditions_in_pipeline_order (cluster : List ClusterObj) (observed : List Res) (ss : List Step) :
+    (finalState (runPipeline cluster observed ss 0 initState)).events =
+      (accepted cluster observed ss 0 initState).flatMap (fun p => (eventsUntilFatal p.1 p.2.results).1) ∧
+    (finalState (runPipeline cluster observed ss 0 initState)).conds =
+      (accepted cluster observed ss 0 initState).flatMap (fun p => p.2.conds) ∧
+    (∀ st, runPipeline cluster observed ss 0 initState = .done st →
+      (accepted cluster observed ss 0 initState).map (·.1) = ss.map (·.name) ∧
+      st.events = (accepted cluster observed ss 0 initState).flatMap (fun p => p.2.results.map (evOf p.1)) ∧
+      st.conds = (accepted cluster observed ss 0 initState).flatMap (fun p => p.2.conds)) := by
+  obtain ⟨h1, h2⟩ := events_conds_concat cluster observed ss 0 initState
+  refine ⟨by simpa [initState] using h1, by simpa [initState] using h2, ?_⟩
+  intro st hst
+  obtain ⟨hn, hnf⟩ := accepted_of_done cluster observed ss 0 initState st hst
+  rw [hst] at h1 h2
+  refine ⟨hn, ?_, by simpa [initState, finalState] using h2⟩
+  have : (accepted cluster observed ss 0 initState).flatMap (fun p => (eventsUntilFatal p.1 p.2.results).1) =
+      (accepted cluster observed ss 0 initState).flatMap (fun p => p.2.results.map (evOf p.1)) := by
+    exact flatMap_congr_mem _ _ _ (fun p hp => eventsUntilFatal_no_fatal p.1 p.2.results (hnf p hp))
+  rw [← this]
+  simpa [initState, finalState] using h1
+
+example : (accepted [] [] [⟨"s0", fun _ => some ⟨[], none, [], [], [⟨.normal, "m", false⟩], [⟨"T", "True", "R", false, ""⟩]⟩, "", []⟩,
+    ⟨"s1", fun _ => some ⟨[], none, [], [], [⟨.warning, "w", true⟩, ⟨.fatal, "f", false⟩, ⟨.normal, "late", false⟩], []⟩, "", []⟩] 0 initState).map (·.1)
+    = ["s0", "s1"] := by decide
 
 /-! ### which function instance a step is sent to (PackagedFunctionRunner) -/
 
@@ -317,6 +946,36 @@ theorem conn_others_untouched (revs : List Rev) (c : Conns) (fn m : String) (hm 
     split
     · rfl
     · exact cget_other c fn e m hm
+
+/-- **A step is sent to the active revision of the function it names.** When
+PackagedFunctionRunner.RunFunction sends the request at all, the connection it sends it over
+targets the non-empty endpoint of an Active revision of the named function (whatever was
+cached before); when the lookup fails nothing is sent and the cache is left alone. -/
+theorem call_sent_to_active (revs : List Rev) (c : Conns) (fn : String) :
+    (∀ ep, (runPackaged revs c fn).1 = some ep →
+      (∃ r ∈ revs, r.fn = fn ∧ r.active = true ∧ r.endpoint = ep ∧ ep ≠ "") ∧ cget (runPackaged revs c fn).2 fn = some ep) ∧
+    ((runPackaged revs c fn).1 = none → (runPackaged revs c fn).2 = c) :=
+  ⟨fun ep h => conn_target revs c fn ep h, fun h => conn_error_keeps_cache revs c fn h⟩
+
+example : (runPackaged [⟨"f-1", "f", false, "live0"⟩, ⟨"f-2", "f", true, "live2"⟩] [("f", "live0")] "f") =
+    (some "live2", [("f", "live2")]) := by decide
+
+/-- **A failing List changes nothing.** When the List of FunctionRevisions (getClientConn) or of
+Functions (garbage collection) answers an error, no connection is handed out, none is closed and
+the cache is exactly what it was; garbage collection of an empty cache does not even list. When
+the List succeeds both are the functions the other theorems are about. -/
+theorem list_failure_keeps_cache (revs : List Rev) (fns : List String) (c : Conns) (fn : String) :
+    getConnF true revs c fn = (none, c) ∧ getConnF false revs c fn = getConn revs c fn ∧
+    (c ≠ [] → gcF true fns c = (none, c)) ∧ gcF true fns [] = (some 0, []) ∧
+    (gcF false fns c).2 = (gc fns c).2 ∧ (gcF false fns c).1 = some (gc fns c).1 := by
+  refine ⟨rfl, rfl, ?_, rfl, ?_, ?_⟩
+  · intro h; cases c with
+    | nil => exact absurd rfl h
+    | cons a l => rfl
+  · cases c <;> rfl
+  · cases c <;> rfl
+
+example : gcF true ["f"] [("g", "live0")] = (none, [("g", "live0")]) := by decide
 
 theorem filter_split_length {α : Type} (p : α → Bool) (l : List α) :
     (l.filter fun x => !p x).length + (l.filter p).length = l.length := by
